@@ -3,6 +3,7 @@ Adjacent marks of the 0.01 grid are compared for every table/event/gender/age of
 Bulgarian, Hungarian (checks/scoring_common.py) and the combined-events tables (with and without age bands);
 results must be ints within the system's bounds; Tyrving hand-timed <= electronic."""
 from decimal import Decimal
+from checks import crossapi
 from vlib import common
 from vlib.common import Report, Violation, HarnessError, Acc, pmap, merge
 from checks import scoring_common as sc
@@ -106,6 +107,7 @@ def run(tier):
     c['exhaustive'] = tier == 'thorough'
     rep.assumptions += ['Hungarian timed events: marks no slower than the zero point of the parabola; field/multi events from the first non-negative mark',
                         'monotonicity is compared per input form (the forms are compared with each other by C11)']
+    crossapi.part(rep, PID, tier)
     return rep.finish()
 
 
